@@ -60,7 +60,11 @@ func runC18(tier string, seed uint64, rep *Report) {
 			// stepping over the enclosing form must not re-wrap or re-position them
 			bad := []types.MalType{Call("let", 5, S("x")), Call("do", Call("let", 5, S("x"))), Call("do", Call("defmacro", S("m1"), Call("fn", V(S("a")), S("a"))), Call("m1")),
 				Call("undefined-zz"), Call("nth", V(), 3), L(Call("fn", V(S("a")), S("a"))), Call("throw", "s"), Call("throw", types.HashMap{Val: map[string]types.MalType{Kw("a"): 1}}),
-				Call("let", V(S("x")), 1), Call("def"), Call("first", 5)}[r.Intn(11)]
+				Call("let", V(S("x")), 1), Call("def"), Call("first", 5),
+				// special forms with fewer operands than usual, in tail position after longer forms
+				Call("do", 1, 2, Call("if", true)), Call("do", Call("trace!", 1), Call("trace!", 2), Call("if", nil)),
+				L(Call("fn", V(S("a"), S("b")), Call("if", S("a"))), 1, Call("trace!", 2)), Call("do", 1, 2, Call("quote")),
+				Call("do", Call("if", true, 1, 2), Call("do"))}[r.Intn(16)]
 			wrap := []func(types.MalType) types.MalType{
 				func(x types.MalType) types.MalType { return x },
 				func(x types.MalType) types.MalType { return Call("do", Call("trace!", 1), x) },
